@@ -47,7 +47,7 @@ def selection(ctx):
         lfs = sorted(x for x in vts if ex.vardefs.get(x[2]) == ("call", ("n", "assign_arg_fields"), (LHS,), ()))
         rf = sorted(x for x in vts if ex.vardefs.get(x[2]) == ("call", ("n", "assign_arg_fields"), (RHS,), ()))
         if len(lfs) != 1 or len(rf) != 1:
-            raise AnalysisError("C40.selection", fn.site, "lhs_fields / rhs_fields = assign_arg_fields(lhs / rhs) not found")
+            raise AnalysisError("C40.selection", fn.site, "lhs_fields / rhs_fields = assign_arg_fields(lhs / rhs) not found", missing="lhs_fields / rhs_fields = assign_arg_fields(lhs / rhs) not found")
         LF, RF = lfs[0], rf[0]
         cfg = {t: v for t, v in ex.config}
         decided = None
